@@ -137,7 +137,10 @@ class Member:
             out += '    pub enum %s {\n' % self.name
             for v in self.variants:
                 out += doc_text(v.get('doc'))
-                if v.get('attrs'): out += '        #[bpaf(%s)]\n' % ', '.join(v['attrs'])
+                vattrs = list(v.get('attrs', []))
+                for (k, val) in v.get('naming', ()):
+                    vattrs.append(k if val is None else ("short('%s')" % val if k == 'short' else '%s("%s")' % (k, val)))
+                if vattrs: out += '        #[bpaf(%s)]\n' % ', '.join(vattrs)
                 if v['shape'] == 'unit':
                     out += '        %s,\n' % v['name']
                 elif v['shape'] == 'named':
@@ -268,10 +271,20 @@ def base_family():
     M.append(Member('b_cmd_named', 'struct', 'Renamed', top=['command("do-it")'], doc='does it', fields=[F('fast', 'bool')]))
     M.append(Member('b_generate', 'struct', 'Foo', top=['generate(oof)']))
     M.append(Member('b_adjacent', 'struct', 'Adj', top=['adjacent'], fields=[F('a', 'String'), F('b', 'String')]))
+    M.append(Member('b_unit_names', 'enum', 'Lint', variants=[
+        dict(name='Warn', shape='unit', naming=[('short', None), ('long', None)], doc='warn about it'),
+        dict(name='Quiet', shape='unit', naming=[('short', None)]),
+        dict(name='VeryVerbose', shape='unit', naming=[('long', None)]),
+        dict(name='Extra', shape='unit', naming=[('short', 'x'), ('long', 'extra-checks')]),
+        dict(name='Other', shape='unit', naming=[('long', 'renamed'), ('short', None)]),
+        dict(name='Plain', shape='unit')]))
+    M.append(Member('b_non_ascii', 'struct', 'Intl', top=['options'], fields=[
+        F('\u00f1', 'bool', doc='single non-ASCII character: a short name'), F('\u0436', 'Option<u32>'),
+        F('gr\u00f6\u00dfe', 'u32', doc='several characters: a long name'), F('\u00e9t\u00e9', 'bool', naming=[('short', None), ('long', None)])]))
     M.append(Member('b_usage', 'struct', 'Usage', top=['options', 'fallback_to_usage'], fields=[F('a', 'u32')]))
     return M
 
-NAMES = ['verbose', 'quiet', 'output_dir', 'n', 'x', 'dry_run', 'jobs', 'r#type', 'r#in', 'r#loop', 'max_depth', 'k', 'log_level', 'r#as', 'input_file', 'v']
+NAMES = ['\u0436', 'gr\u00f6\u00dfe', 'verbose', 'quiet', 'output_dir', 'n', 'x', 'dry_run', 'jobs', 'r#type', 'r#in', 'r#loop', 'max_depth', 'k', 'log_level', 'r#as', 'input_file', 'v']
 TYPES = ['bool', 'u32', 'String', 'PathBuf', 'Option<u32>', 'Option<String>', 'Vec<String>', 'Vec<u32>', 'usize', 'f64', '()']
 DOCS = [None, None, 'some help', 'turns the thing on', 'path to the thing\nsecond line', 'a "quoted" word']
 
@@ -317,7 +330,15 @@ def random_member(rng, i):
         vd = rng.choice([None, 'variant help', 'does a thing'])
         attrs = ['command'] if rng.random() < 0.35 else []
         if shape == 'unit':
-            variants.append(dict(name=vn, shape='unit', doc=vd, attrs=attrs))
+            naming = []
+            r = rng.random()
+            if not attrs:
+                if r < 0.15: naming = [('short', None), ('long', None)]
+                elif r < 0.25: naming = [('short', None)]
+                elif r < 0.35: naming = [('long', None)]
+                elif r < 0.45: naming = [('short', rng.choice('abcdefgqz')), ('long', None)]
+                elif r < 0.5: naming = [('long', 'explicit-name')]
+            variants.append(dict(name=vn, shape='unit', doc=vd, attrs=attrs, naming=naming))
         elif shape == 'named':
             u2 = set()
             variants.append(dict(name=vn, shape='named', doc=vd, attrs=attrs, fields=order_fields([random_field(rng, u2) for _ in range(rng.randint(1, 3))])))
